@@ -147,7 +147,7 @@ CONFIG.rule = ("the real dispatch() of net_tcp_async.c on a scripted socket (lib
                "send / would-block / error at EVERY byte offset, followed by reconnects; random mixed schedules with poll timeouts and "
                "errors, POLLHUP, refused connections, peer close/reset, connect and send timeouts (incl. 0), per-round limits, clock. "
                "Compared per case: every dispatch status, bytes per connection, PDUs delivered in order, buffer fill, every request's "
-               "state and sent count. Distinct by op line.")
+               "state and sent count. Distinct by op line. The handed-up PDUs are taken through the client's own getResponse; the bytes each connection delivered are reported and the PDUs must be first complete elements of each connection in turn.")
 CONFIG.trusted_base = ["Lean 4.33.0 kernel; axioms propext, Classical.choice, Quot.sound only",
                        "model KsiVerif.Model.Tcp hand-written from net_tcp_async.c:171-480; tied by harness/exec_c14.c whose socket simulator is trusted to behave like a non-blocking stream socket"]
 CONFIG.assumptions = ["kernel socket semantics are simulated, not exercised", "the blocking reader (net_tcp.c) is covered by C09's stream ops over a socketpair only"]
